@@ -165,19 +165,23 @@ def classify(src, out):
         if a == "." and b.isdigit():
             return "space-inserted:..digit", k
         return "space-inserted:%s%s" % (char_class(a) if a not in "].[->" else a, char_class(b) if b not in "].[-=" else b), k
-    if k < len(src) and src[k] == ";" and out[k:k + 6] == src[k + 1:k + 7]:
-        # a single `;` is missing here (other differences may follow): the one after a last statement?
-        try:
-            toks, _ = L.lex(src.encode("utf-8"))
-        except L.LexError:
-            toks = []
+    # a `;` (with trivia around it) is missing: the first code token of the source at / after the first
+    # difference is `;`, and the output continues with the token that follows it
+    try:
+        toks, _ = L.lex(src.encode("utf-8"))
+        otoks, _ = L.lex(out.encode("utf-8"))
+    except L.LexError:
+        toks, otoks = None, None
+    if toks is not None:
         pos = len(src[:k].encode("utf-8"))
-        idx = next((i for i, t in enumerate(toks) if t.start == pos), None)
-        if idx is not None:
+        idx = next((i for i, t in enumerate(toks) if t.end > pos), None)
+        if idx is not None and toks[idx].text == b";" and [t.text for t in toks[:idx]] == [t.text for t in otoks[:idx]]:
             nxt = toks[idx + 1].text if idx + 1 < len(toks) else b"<eof>"
-            if nxt in (b"end", b"until", b"else", b"elseif", b"<eof>"):
-                return "dropped:last-semicolon", k
-        return "dropped:;", k
+            onxt = otoks[idx].text if idx < len(otoks) else b"<eof>"
+            if nxt == onxt:
+                if nxt in (b"end", b"until", b"else", b"elseif", b"<eof>"):
+                    return "dropped:last-semicolon", k
+                return "dropped:;", k
     # a piece of the source is missing: look at what was removed (common prefix / suffix stripped)
     suf = 0
     while suf < min(len(src), len(out)) - k and src[len(src) - 1 - suf] == out[len(out) - 1 - suf]:
